@@ -106,7 +106,20 @@ func c02Child(args []string) int {
 	for i := range defs {
 		defs[i].MaxFlush = time.Duration(flushMS+i) * time.Millisecond
 	}
-	db, err := dbh.Open(dir, defs, dbh.Opts{})
+	opts := dbh.Opts{}
+	if os.Getenv("VERIF_C02_SLOWFAT") != "" {
+		// the table with the big rows is never flushed by its timer: between clean closes everything it holds
+		// lives in memory and in the WAL only (well over a megabyte per round)
+		defs[len(defs)-1].MaxFlush = time.Hour
+		defs[len(defs)-1].MinFlush = time.Hour
+	}
+	arrays := os.Getenv("VERIF_C02_PRESSURE") != "" && mode == "insert"
+	if arrays {
+		// memory cap so small that every applied entry forces a (sorted) flush first; values arrive as arrays
+		// of four equal parts (exact in binary), so that a partly applied point is visible in the sum
+		opts.MaxMemoryRatio = 1e-12
+	}
+	db, err := dbh.Open(dir, defs, opts)
 	if err != nil {
 		fmt.Println("ERROR open", err)
 		return 4
@@ -120,9 +133,16 @@ func c02Child(args []string) int {
 		base := time.Unix(baseUnix, 0)
 		r := rand.New(rand.NewSource(int64(start)))
 		fmt.Fprintf(out, "OPEN\n")
+		value := func(i int) map[string]interface{} {
+			v := math.Pow(3, float64(i%30))
+			if arrays {
+				return map[string]interface{}{"v": []float64{v / 4, v / 4, v / 4, v / 4}}
+			}
+			return map[string]interface{}{"v": v}
+		}
 		for i := start; i < start+count; i++ {
 			fmt.Fprintf(out, "TRY %d\n", i)
-			err := db.Insert("inbound", base.Add(time.Duration(i%3000)*time.Second), map[string]interface{}{"k": fmt.Sprintf("c%05d", i/30), "odd": i % 2, "sub": i % 30, "pad": c02Pad(i)}, map[string]interface{}{"v": math.Pow(3, float64(i%30))})
+			err := db.Insert("inbound", base.Add(time.Duration(i%3000)*time.Second), map[string]interface{}{"k": fmt.Sprintf("c%05d", i/30), "odd": i % 2, "sub": i % 30, "pad": c02Pad(i)}, value(i))
 			if err != nil {
 				fmt.Fprintf(out, "ERR %d %v\n", i, err)
 				continue
@@ -146,7 +166,7 @@ func c02Child(args []string) int {
 		fmt.Fprintf(out, "CLOSED\n")
 		return 0
 	case "verify":
-		if !db.WaitCaughtUp(120 * time.Second) {
+		if !db.WaitCaughtUp(300 * time.Second) {
 			fmt.Fprintf(out, "NOTCAUGHTUP\n")
 			return 5
 		}
@@ -303,6 +323,19 @@ func runC02(c *fw.Ctx) {
 	flushMS := 2 + r.Intn(18)
 	timerEnv := []string{"VERIF_TIMER_DIV=100"}
 	perRound := c.Pick(120, 200)
+	variant := "plain"
+	switch c.Case % 6 {
+	case 2:
+		// well over WALCompressionSize (~1 MB) of acknowledged inserts per round that no flush has persisted
+		variant = "slow-fat-table"
+		timerEnv = append(timerEnv, "VERIF_C02_SLOWFAT=1")
+		perRound = 450
+	case 5:
+		variant = "memory-pressure-arrays"
+		timerEnv = append(timerEnv, "VERIF_C02_PRESSURE=1")
+		perRound = 60
+	}
+	c.Obs("variant:"+variant, 1)
 
 	// dry run on a scratch directory: which points exist and how often are they hit
 	dryLines, _, err := c02RunChild(c, append(timerEnv, "VERIF_COUNTS=1"), 120*time.Second, 0, 0, "insert", filepath.Join(c.Dir, "dry"), "0", strconv.Itoa(perRound), strconv.Itoa(flushMS), strconv.FormatInt(base, 10))
@@ -435,7 +468,14 @@ func runC02(c *fw.Ctx) {
 		c.Obs("rounds", 1)
 
 		// restart + verify
-		vlines, _, verr := c02RunChild(c, timerEnv, 240*time.Second, 0, 0, "verify", dir)
+		vlines, _, verr := c02RunChild(c, timerEnv, 480*time.Second, 0, 0, "verify", dir)
+		for _, l := range vlines {
+			if l == "NOTCAUGHTUP" {
+				// bounded progress: the verifier's watchdog (300s) fired before exact quiescence
+				c.Inconclusive("verifier did not reach quiescence within its watchdog after %s", desc)
+				return
+			}
+		}
 		if verr != nil {
 			c.ViolateData("c02-restart-failed", map[string]interface{}{"history": log, "error": verr.Error()}, "after %s the database did not come back: %v", desc, verr)
 			return
@@ -496,7 +536,7 @@ func runC02(c *fw.Ctx) {
 						n += 2
 					}
 					_ = odd
-					if float64(n) != sp[1] {
+					if float64(n) != sp[1] && variant != "memory-pressure-arrays" {
 						c.ViolateData("c02-points-disagree", log, "after %s: table %s (%s) cell %s: _points=%v but the sum decodes to %d ids", desc, tbl, tag, cell, sp[1], n)
 						return
 					}
@@ -538,7 +578,7 @@ func runC02(c *fw.Ctx) {
 	c.Obs("ids_acknowledged", int64(len(acked)))
 	c.Obs("ids_in_flight_at_a_kill", int64(len(inflight)))
 	c.Nontrivial(nontrivial)
-	c.Sample(map[string]interface{}{"flush_latency_ms": flushMS, "instrumented_points": names, "history": log})
+	c.Sample(map[string]interface{}{"variant": variant, "flush_latency_ms": flushMS, "instrumented_points": names, "history": log})
 }
 
 // c02Decode splits a cell sum into base-3 digits; digits equal to 2 are returned separately (duplicates).
